@@ -160,7 +160,19 @@ META["C16"] = {
     "technique": "bounded exhaustive enumeration of programs (slot chains x behaviours) executed on the implementation",
 }
 
-ENGINE_OF = {"C16": "seq", "C14": "seq", "C13": "seq", "C05": "seq", "C11": "seq", "C10": "seq+sched", "C12": "sched", "C03": "seq", "C06": "seq+sched", "C09": "sched", "C08": "seq", "C02": "seq+sched", "C04": "seq+sched", "C01": "seq+sched"}
+META["C15"] = {
+    "level": "model_checking",
+    "race": True,
+    "rule": "scenario = pair (or triple) of API callers on the real global state: request (Entry [+TraceError] + Exit) on resource a or b || LoadRules / LoadRulesOfResource(a) / LoadRulesOfResource(c) / ClearRules / ClearRulesOfResource(a) / GetRules / GetRulesOfResource for flow, isolation, hotspot and circuit breaker; two writers; first use of a resource from two goroutines; statistics getters || traffic; system and outlier rule management; for each scenario ALL schedules with at most 2 (quick) / 3 (thorough; 2 for the three-thread scenarios) preemptions at the granularity of every sync/atomic, lock and pool operation are executed in a binary built with -race whose scheduler hand-off is invisible to the detector; oracle: no new race report during the execution, no panic / deadlock, racing request decided by the old or the new list of its own resource (never a mixture), requests on another resource unaffected; distinct = scenario + observation vector",
+    "assumptions": [A_SHIM, A_CLOCK, A_OVERLAY, "Go's race detector is the oracle for unsynchronised plain-memory accesses in the explored schedules; it reports a given pair of stacks once per process, so a race violation is recorded on first sight and reproduced by vcheck --replay in a fresh process", "same-entry concurrent calls (two goroutines calling Exit on one entry) are outside the scenarios"],
+    "budget_quick": 120,
+    "budget_thorough": 1500,
+    "text": "Systematic (not sampled) schedule enumeration of pairs of public API calls with the race detector judging every explored schedule, plus old-or-new atomicity of rule switches.",
+    "level_note": "2 threads (3 in a few scenarios), preemption bound 2 / 3: not 'every schedule the runtime can produce'; for race-free executions Go's DRF-SC guarantee makes the sequentially consistent exploration faithful.",
+    "technique": "preemption-bounded stateless model checking under a controlled scheduler, each schedule executed under the Go race detector",
+}
+
+ENGINE_OF = {"C15": "sched", "C16": "seq", "C14": "seq", "C13": "seq", "C05": "seq", "C11": "seq", "C10": "seq+sched", "C12": "sched", "C03": "seq", "C06": "seq+sched", "C09": "sched", "C08": "seq", "C02": "seq+sched", "C04": "seq+sched", "C01": "seq+sched"}
 
 # properties not claimed, with the reason (kept current)
 NOT_APPLICABLE = {}
